@@ -8,7 +8,7 @@
    about separately constructed copies. *)
 From Coq Require Import ZArith NArith Bool List.
 From PcoreV Require Import Model.Base Model.Ty Model.Lattice Model.TyEq Proofs.LatticeBasics Proofs.LatticeRule
-  Proofs.LatticeOrder Proofs.LatticeEq Proofs.LatticeTransBasics Proofs.LatticeTrans.
+  Proofs.LatticeOrder Proofs.LatticeEq Proofs.LatticeTransBasics Proofs.LatticeTrans Proofs.LatticeStructHashKey.
 Import ListNotations.
 Open Scope Z_scope.
 
@@ -94,6 +94,20 @@ Section C03.
   Proof. exact (variant_member rx true). Qed.
   Theorem C03_optional_accepts : forall a, wf_ty a = true -> TOptional a ⊒ a /\ TOptional a ⊒ TUndef.
   Proof. exact (optional_accepts rx true). Qed.
+
+  (* Transitivity and interchangeability THROUGH the by-specification rule, where C03_trans says nothing (rule_free a b fails
+     for a Struct against a Hash): the rule reads the key type of the Hash through the dispatcher (GuardedIsAssignable(String,
+     key), structtype.go:294), so the answer of a Struct for a Hash follows the key type downwards - Variant / NotUndef /
+     Optional wrappers around string types included - and two key types that accept each other are interchangeable below
+     a Hash on the right of a Struct. No condition on the Struct, the value type or the size. *)
+  Theorem C03_struct_hash_key_down : forall ms k k' v lo hi,
+    wf_ty k = true -> wf_ty k' = true -> no_unit k = true -> no_unit k' = true -> rule_free k k' = true ->
+    k ⊒ k' -> TStruct ms ⊒ THash k v lo hi -> TStruct ms ⊒ THash k' v lo hi.
+  Proof. exact (struct_hash_key_down rx). Qed.
+  Theorem C03_struct_hash_key_interchange : forall ms k k' v lo hi,
+    wf_ty k = true -> wf_ty k' = true -> no_unit k = true -> no_unit k' = true -> rule_free k k' = true -> rule_free k' k = true ->
+    k ⊒ k' -> k' ⊒ k -> asg rx true (TStruct ms) (THash k v lo hi) = asg rx true (TStruct ms) (THash k' v lo hi).
+  Proof. exact (struct_hash_key_interchange rx). Qed.
 End C03.
 
 Print Assumptions C03_refl.
@@ -120,6 +134,23 @@ Print Assumptions C03_trans_rule_free_relation.
 Print Assumptions C03_any_top.
 Print Assumptions C03_variant_member.
 Print Assumptions C03_optional_accepts.
+Print Assumptions C03_struct_hash_key_down.
+Print Assumptions C03_struct_hash_key_interchange.
+
+(* Non-vacuity of the two theorems above: Struct[{a=>Integer}] accepts Hash[String,Integer,1,1], String accepts
+   Variant[Enum[a],Enum[b]] and NotUndef[String], and the Struct accepts the Hashes over those keys (the chains of seeded
+   change C03-m8); String and Variant[String,String[1]] accept each other; a key type String does not accept is rejected. *)
+Example C03_struct_hash_key_nonvacuous :
+  let rx := fun _ _ => false in
+  let i := TInteger (-9223372036854775808) 9223372036854775807 in
+  let sa := TStruct [([97%N], (TStringVal [97%N], i))] in
+  let kv := TVariant [TEnum false [[97%N]]; TEnum false [[98%N]]] in
+  let kw := TVariant [TString; TStringSz 1 9223372036854775807] in
+  asg rx true sa (THash TString i 1 1) = true /\ asg rx true TString kv = true /\ rule_free TString kv = true /\
+  asg rx true sa (THash kv i 1 1) = true /\ asg rx true sa (THash (TNotUndef TString) i 1 1) = true /\
+  asg rx true TString kw = true /\ asg rx true kw TString = true /\ asg rx true sa (THash kw i 1 1) = true /\
+  asg rx true sa (THash (TVariant [TString; i]) i 1 1) = false /\ asg rx true sa (THash (TOptional TString) i 1 1) = false.
+Proof. vm_compute. repeat split; reflexivity. Qed.
 
 (* Non-vacuity: the laws on concrete nested types (the model computes). *)
 Example C03_nonvacuous :
